@@ -96,7 +96,7 @@ pub fn cases(ctx: &Ctx) -> Vec<Case> {
     let mut rng = Rng::derive(ctx.seed, &[0xC10]);
     let mut v = Vec::new();
     if !k.is_prod() {
-        let narch = if ctx.quick() { 40 } else { 400 };
+        let narch = if ctx.quick() { 160 } else { 1600 };
         for a in 0..narch {
             let layers = LAYER_COMBOS[a % 4];
             let nfiles = 2 + rng.usize_below(5);
@@ -117,7 +117,7 @@ pub fn cases(ctx: &Ctx) -> Vec<Case> {
             v.push(Case { prog: p, histories: hs });
         }
     } else {
-        let narch = if ctx.quick() { 16 } else { 200 };
+        let narch = if ctx.quick() { 80 } else { 1000 };
         for a in 0..narch {
             let layers = LAYER_COMBOS[a % 4];
             let nfiles = 3 + rng.usize_below(if ctx.quick() { 3 } else { 6 });
